@@ -11,6 +11,28 @@ CLAIMED = {
  "C13": ("DESIGN.md §6 C13",
          "The whole relay (service.Config JSON -> Manager -> Run: TCP relay, router, all stream protocols, stats, management API served by net/http) runs inside the simulator; seeded search over server x client protocol pairs (incl. a chained hop), users/auth, initial-payload timing around the wait window, stream sizes, half-close order, dial failures by errno/DNS/refusal/router rejection under seeded segmentation, latency and scheduling. Oracle: destination sees the requested address and payload++stream exactly once, replies flow back intact, half-closes are mirrored, failures are reported with the protocol's reply unless success had to be sent first, API statistics equal delivered bytes per server and per user.",
          "simnet TCP model and resolver; harness edge endpoints are the repository's own protocol packages (checked separately by C01/C02/C07); TLS, tproxy/redirect and socket options are outside the simulation."),
+
+ "C02": ("DESIGN.md §6 C02",
+         "Seeded exploration of one or two tamper operators (bit flip, cut+FIN, drop, duplicate, swap, splice with a recorded same-key or other-key session, response swap, foreign client key, optional fallback address) at every structural position of real ss2022 client/server sessions through an on-path harness task over the simulated network; the oracle derives from the byte-level common prefix of written versus delivered ciphertext exactly which application bytes may be returned and how each stream must end, plus the handshake and fallback clauses. Sampling, not proof.",
+         "ciphertext structure is taken from write boundaries (asserted by the harness); a cut exactly on an AEAD chunk boundary may end with EOF; the same-key donor session is recorded against the server under test; at most two operators per run."),
+ "C03": ("DESIGN.md §6 C03",
+         "Seeded exploration of generated histories (clock steps down to 1 ns around the 30/31/60/61 s boundaries, client skew -31..+31 s, replays, junk, same-salt junk, 2-4 concurrent copies with a bystander that prunes the pool) against the real StreamServer.HandleStream/SaltPool on the simulated clock and network with statement-level pre-emption in saltpool.go/tcp.go; oracle: accepted-request set model plus the 30 s / 31 s rule on the real-valued difference. Found the 60-61 s replay window (repaired).",
+         "requests come from an independent harness encoder built on exported primitives; all copies of a concurrent group are presented at one simulated instant; the (30 s, 31 s) band is not judged."),
+ "C04": ("DESIGN.md §6 C04",
+         "Seeded histories (5-200 packets) driving the real SS2022 UDP server path and the real client unpacker for all eight window sizes, with packets from the real packers and from an independent SIP022 encoder, reordered, duplicated, delayed past the 30/60 s limits (simulated clock) and mixed with eleven attacker packet kinds plus exact replays; SlidingWindowFilter is additionally driven directly, including all length-6 orders over boundary alphabets; oracle: delivered-id set model.",
+         "session lifetime is the harness's (no NAT eviction at package level); the 30-31 s band, exactly-60 s session changes and delivery of fresh previous-session packets are not judged; identity-header bytes of packets in an established session are unauthenticated by protocol design."),
+ "C09": ("DESIGN.md §6 C09",
+         "Package-level simulation of the real router (with the real portset, bitset, domainset text and gob loaders, prefixset/bart, and in a minority of runs the real SystemResolver and TCP dns.Resolver over the simulated network) against an independent executable model of the documented route semantics: generated configurations x directed requests with scripted resolver answers, failures and latency and 1-3 concurrent request tasks; first applicable route, default, reject and lookup-error clauses asserted per request. Found the port-0 panic (repaired).",
+         "apart from the resolver/latency/concurrency dimension and panic detection this is seeded generation against a model; GeoIP criteria and undocumented combinations are not generated; points the documentation leaves open accept every reading."),
+ "C11": ("DESIGN.md §6 C11",
+         "The whole relay runs in the simulator (generic and recvmmsg/sendmmsg paths): 1-5 concurrent UDP sessions with distinct IP/IPv4-mapped/IPv6/domain targets on several target machines that share port numbers, tagged datagrams, scripted resolver delays, client address changes, garbage phases, optional loss/duplication/delay and statement-level pre-emption in the relay and the direct packer; oracle: every tagged datagram is only ever seen at its own destination, replies reach the owning client with the true source, garbage creates no socket or goroutine, clean networks lose nothing. Found the shared direct packer cache (repaired).",
+         "harness edge endpoints use the repository's own packers (checked by C04/C05); SOCKS5 as the relay's UDP client protocol is not driven; router rejection is judged at session creation only."),
+ "C14": ("DESIGN.md §6 C14",
+         "Seeded schedule search with statement-level pre-emption in stats/collector.go: 2-6 recorder tasks, 1-2 observer tasks (Snapshot, SnapshotAndReset, management API with and without clear, per-user endpoint), anonymous plus up to 6 named users, 1-2 servers; oracle: ledger of started/completed/handed-out amounts bounds every observation, resets plus final snapshot conserve every counter of every user, server total = anonymous + users, API projections equal the collector. Found the per-user endpoint reporting the server total (repaired).",
+         "cross-counter atomicity of one session is not asserted (the statement is per counter); counters stay below 2^48; service-level callers are covered by C13."),
+ "C15": ("DESIGN.md §6 C15",
+         "Seeded schedule search with statement-level pre-emption in netio/pipe.go: 2-4 goroutines per end issuing Write/Read/WriteTo/Set*Deadline(past, future, zero)/CloseWrite/CloseRead/Close; every delivered byte names its Write (exactly once, in order, never interleaved, returned count equals bytes consumed), every error needs a cause, half-close and deadline rules hold, no run is stuck at quiescence or after the final close, none panics.",
+         "runs terminate by construction through a janitor task that watches for quiescence; at most 85 bytes per writer; the outcome of racing legal events is not constrained."),
 }
 
 NOT_APPLICABLE = {
